@@ -2,6 +2,7 @@ use crate::prng::Rng;
 use std::collections::BTreeMap;
 
 pub mod dos;
+pub mod callseq;
 pub mod fs;
 pub mod spec;
 pub mod fault;
@@ -48,6 +49,11 @@ pub trait Stream {
     fn oracle(&self, _line: &str, _resp: &str) -> Vec<OracleFailure> {
         vec![]
     }
+    /// Measurements gathered while running (reported in the meta file next to the generator
+    /// distribution); called once after all cases ran.
+    fn stats(&self) -> Vec<(String, u64)> {
+        vec![]
+    }
     /// Is this case "non-trivial" for the evidence count (reaches past the first validation)?
     fn nontrivial(&self, _line: &str, resp: &str) -> bool {
         !resp.starts_with("err") && resp != "bad-op"
@@ -74,6 +80,7 @@ pub fn all() -> Vec<Box<dyn Stream>> {
         Box::new(aes::Aes),
         Box::new(spec::SpecStream),
         Box::new(fs::FsStream),
+        Box::new(callseq::CallSeq),
     ]
 }
 
